@@ -102,9 +102,11 @@ def preemptions(record, choices):
     return n
 
 
-def explore(make_bodies, on_result, bound, pkgdir, max_runs=None):
+def explore(make_bodies, on_result, bound, pkgdir, max_runs=None, max_seconds=None):
     """make_bodies() -> list of zero-arg callables (fresh state for every execution).
     on_result(choices, results, errors, record). Enumerates all schedules with <= bound preemptions."""
+    import time as _time
+    t0 = _time.time()
     stack = [[]]
     runs = 0
     capped = False
@@ -117,7 +119,7 @@ def explore(make_bodies, on_result, bound, pkgdir, max_runs=None):
         pmax = max(pmax, len(record))
         choices = prefix + [0] * (len(record) - len(prefix))
         on_result(choices, results, errors, record)
-        if max_runs and runs >= max_runs:
+        if (max_runs and runs >= max_runs) or (max_seconds and _time.time() - t0 > max_seconds):
             capped = True
             break
         used = preemptions(record[:len(prefix)], prefix)
